@@ -54,7 +54,7 @@ func c12AES(c *vf.Ctx) {
 	if !c.Active(sub) {
 		return
 	}
-	n := c.N(6000, 300000)
+	n := c.N(20000, 300000)
 	for i := 0; i < n; i++ {
 		if !c.Mine(sub, i) {
 			continue
@@ -233,7 +233,7 @@ func c12ValueKey(c *vf.Ctx) {
 	if !c.Active(sub) {
 		return
 	}
-	n := c.N(4000, 200000)
+	n := c.N(15000, 200000)
 	for i := 0; i < n; i++ {
 		if !c.Mine(sub, i) {
 			continue
@@ -298,7 +298,7 @@ func c12SecondHash(c *vf.Ctx) {
 	if !c.Active(sub) {
 		return
 	}
-	n := c.N(4000, 200000)
+	n := c.N(15000, 200000)
 	for i := 0; i < n; i++ {
 		if !c.Mine(sub, i) {
 			continue
